@@ -67,7 +67,10 @@ fn run_case(out: &mut Out, case: &Case) {
 }
 
 /// One history of counters around a moving maximum.
-fn gen_history(r: &mut Rng, len: usize, out: &mut Out) -> Vec<String> {
+/// `plain`: an unsecured session -- a value more than the window below the maximum is a restart and
+/// becomes the new maximum, so that the history continues around the restart point (values just
+/// below it, duplicates of it, windows above it, further restarts).
+fn gen_history(r: &mut Rng, len: usize, out: &mut Out, plain: bool) -> Vec<String> {
     let starts: [u64; 12] = [0, 1, 2, 15, 16, 17, 100, (1 << 31) - 1, 1 << 31, U32M - 40, U32M - 1, 65534];
     let mut max: u64 = if r.chance(1, 3) { r.below(U32M) } else { *r.pick(&starts) };
     let mut hist: Vec<u64> = Vec::new();
@@ -92,6 +95,9 @@ fn gen_history(r: &mut Rng, len: usize, out: &mut Out) -> Vec<String> {
         };
         let c = c.min(U32M - 1);
         if c > max {
+            max = c;
+        } else if plain && c + 16 < max {
+            out.stat("p_restart", 1);
             max = c;
         }
         hist.push(c);
@@ -174,22 +180,24 @@ pub fn gen(a: &Args) -> String {
         let mut cr = r.fork();
         let len = if a.thorough { cr.range(2, 120) } else { cr.range(2, 40) } as usize;
         let kind = match cr.below(10) {
-            0..=5 => "u",
-            6 => "p",
+            0..=4 => "u",
+            5..=6 => "p",
             _ => "g",
         };
-        let ops = if kind == "g" { gen_group(&mut cr, len * 2, &mut out) } else { gen_history(&mut cr, len, &mut out) };
+        let ops = if kind == "g" { gen_group(&mut cr, len * 2, &mut out) } else { gen_history(&mut cr, len, &mut out, kind == "p") };
         out.stat(&format!("kind_{}", kind), 1);
         run_case(&mut out, &Case { id, kind: kind.to_string(), ops });
     }
-    if a.thorough {
-        // supporting exploration (not the proof): every history of length <= 4 over a boundary
-        // alphabet around two bases, for a secure unicast session and for one group sender
+    {
+        // supporting exploration (not the proof): every history of length <= 4 (thorough; quick: <= 3,
+        // unsecured sessions only) over a boundary alphabet around two bases, for a secure unicast
+        // session, an unsecured session and one group sender
+        let (max_len, kinds): (usize, &[&str]) = if a.thorough { (4, &["u", "p", "g"]) } else { (3, &["p"]) };
         let mut id = n_cases;
         for base in [1000u64, U32M - 20] {
             let offs: [i64; 12] = [-18, -17, -16, -15, -1, 0, 1, 15, 16, 17, 18, 40];
             let alpha: Vec<u64> = offs.iter().map(|o| ((base as i64 + o) as u64) % U32M).collect();
-            for len in 1..=4usize {
+            for len in 1..=max_len {
                 let total = alpha.len().pow(len as u32);
                 for mut k in 0..total {
                     let mut h = Vec::with_capacity(len);
@@ -197,7 +205,7 @@ pub fn gen(a: &Args) -> String {
                         h.push(alpha[k % alpha.len()]);
                         k /= alpha.len();
                     }
-                    for kind in ["u", "g"] {
+                    for kind in kinds.iter().copied() {
                         let ops: Vec<String> = h
                             .iter()
                             .map(|c| if kind == "g" { format!("1 7 {}", c) } else { c.to_string() })
